@@ -139,7 +139,7 @@ def gen_history(seed, tier, classes=None, weights=None, n_ops=(6, 16),
                 max_handles=3, pre_p=0.4, dmax=6, fresh_p=0.0, dataset_kinds=None,
                 unknown=False, verbose_p=0.15, extras_p=0.5, share_p=0.3,
                 classifier_bias=1, cp_fit_p=0.25, cp_invalid_p=0.0, calib_invalid_p=0.25,
-                store_bias=1, tiny_scale_p=0.0, wide_p=0.0, grid_p=0.0):
+                store_bias=1, tiny_scale_p=0.0, wide_p=0.0, grid_p=0.0, failfirst_p=0.05):
   r = substream(seed, "hist")
   if wide_p and substream(seed, "hist-wide").random() < wide_p:
     return gen_wide_history(seed)
@@ -282,7 +282,18 @@ def gen_history(seed, tier, classes=None, weights=None, n_ops=(6, 16),
     if k == "new":
       if len(syms) < max_handles:
         s2 = new_handle()
-        if s2 is not None and r.random() < 0.85:
+        if s2 is not None and r.random() < failfirst_p:
+          # the very first fit of this object fails (malformed input): the
+          # object is still a not-yet-fitted estimator for every query method
+          ops.append(dict(op="fit", h=s2.hid, data=s2.data, via="formed",
+                          malformed=r.choice(["nan", "short_y", "nan"])))
+          for mth in sorted(set(methods(s2))):
+            if r.random() < 0.45:
+              ops.append(dict(op="query", h=s2.hid, method=mth, probe=probe(s2)))
+          if r.random() < 0.3:
+            ops.append(dict(op="restart", h=s2.hid, how="inproc"))
+            ops.append(dict(op="query", h=s2.hid, method=r.choice(methods(s2)), probe=probe(s2)))
+        elif s2 is not None and r.random() < 0.85:
           fit_op(s2)
       continue
     if not s.fitted and k not in ("query", "ambient", "eigsh"):
